@@ -51,3 +51,10 @@ CHECKS["C17"] = {
   "text": "Every annotation pattern in the bound (331,776 arrays at length 4; stacks for a fixed stride) is pushed through every residue/chain view (starts, masks, starts_for, positions, counts, names, iteration, apply with 7 reducing functions, spread) and compared with a per-atom recomputation; every labelled graph on <= 6 vertices through every molecule entry point against union-find components; the size ladder runs each entry point in a forked child (a crash or hang is an observation).",
   "note": "Trusts the per-atom model and union-find in props/c17.py; length-5 patterns use two 12-letter sub-alphabets; star graphs are capped at 3000 atoms (get_all_bonds is atoms x max degree).",
 }
+CHECKS["C19"] = {
+  "engine": "E2-input-enumerator",
+  "technique": "complete enumeration of symmetric distance matrices (n=2..5/6 over small value palettes, ties included), all unrooted topologies on 4-6 leaves x branch-length assignments (additive matrices), all ordered rooted tree shapes with <=5/6 leaves x permutations x length palettes, against average-linkage / path-sum models and an independent strict Newick parser",
+  "ref": "DESIGN.md section 4 C19; notes/C19.md",
+  "text": "Every matrix in the bound is clustered by upgma() and neighbor_joining(); the result must contain every index exactly once, be ultrametric with each merge height = half the average-linkage distance recomputed from the input along a valid greedy order (UPGMA), or reproduce every leaf-to-leaf path length of the additive matrix (NJ). Every hand-built tree in the bound is written with every writer option combination, read back (plain and whitespace-decorated), copied, converted to binary form and queried (distances, LCA) against explicit walks on a parent-pointer model. ~197 k cases quick, ~2.6 M thorough.",
+  "note": "Trusts mc/models/phylo_model.py (parent-pointer tree, average linkage, additive matrices, strict Newick parser). Refusing hand-built trees with duplicate leaf indices and atomic failure of TreeNode construction are counted as unspecified (not in the statement).",
+}
